@@ -458,7 +458,7 @@ Definition fuel_of (ts : list obj) : nat := S (size_list ts).
 Definition chk (c : bool * Z * list obj * vtable * list Z * bool) : Z :=
   let '(sc, n, ts, tbl, bs, dec) := c in
   let toks := slice_list n ts in
-  let b_wf := match wf_list sc [] n ts with Some _ => true | None => false end in
+  let b_wf := match wf_list sc [] [] n ts with Some _ => true | None => false end in
   let wire := envocab tbl toks in
   let b_tok := forallb wf_token wire in
   let b_send := match encode_stream wire with Ok b => list_eqb b bs | Exc _ => false end in
